@@ -72,6 +72,8 @@ def plan(tier, seed):
             ac = acyclic(ops)
             if ac or deterministic(ops):
                 cases.append({"ops": fsm.ops_json(ops), "acyclic": ac})
+                if len(ops) <= 5 and ns == 2:
+                    cases.append({"ops": fsm.ops_json(ops), "acyclic": ac, "ints": True})  # falsy / integer symbols
     return {
         "cases": cases,
         "states": nstates,
@@ -181,6 +183,10 @@ def run_case(case):
     n = len(ops)
     FW = [Q(fsm.FRAC[i % 8]) for i in range(n)]
     inp0 = {"ops": case["ops"]}
+    if case.get("ints"):
+        im = {"a": 0, "b": 1}
+        ops = tuple(o if o[0] != "A" else ("A", o[1], im.get(o[2], o[2]), o[3]) for o in ops)
+        inp0["symbols"] = "a,b -> 0,1"
     fails = []
     evals = 0
     try:
